@@ -23,18 +23,27 @@ run_one() {  # label patch prop
 }
 # unpatched tree first: the pass must hold for a cheap and an expensive property
 TW_OUT="$OUTDIR/out" python3 "$VERIF/checks/check.py" C10 miri >"$OUTDIR/log" 2>&1; echo "unpatched C10 exit=$?"
+[ -z "${1:-}" ] || export RACES_MERGE=1
+PAT="${1:-}"   # optional pattern: only these seeded changes, merged into seeded/races.json
 for d in "$VERIF"/seeded/S*; do
   grep -q '"class": "seam-race"' "$d/meta.json" 2>/dev/null || continue
+  [ -z "$PAT" ] || basename "$d" | grep -q "$PAT" || continue
   prop="$(sed -n 's/.*"breaks_property": "\(C[0-9]*\)".*/\1/p' "$d/meta.json" | head -1)"
   run_one "$(basename "$d")" "$d/patch.diff" "$prop"
 done
 for p in "$VERIF"/tools/premise_audit/selftest/*.miri.diff; do
+  [ -z "$PAT" ] || continue
   run_one "own-$(basename "$p" .miri.diff)" "$p" C10
 done
 python3 - "$ROWS" "$VERIF/seeded/races.json" <<'PY'
 import json, sys
 rows = [l.rstrip("\n").split("\t") for l in open(sys.argv[1])]
-json.dump({"miri_pass_of_the_targeted_property": [
+import os
+prev = []
+if os.environ.get("RACES_MERGE") == "1" and os.path.exists(sys.argv[2]):
+    names = {r[0] for r in rows}
+    prev = [e for e in json.load(open(sys.argv[2]))["miri_pass_of_the_targeted_property"] if e["change"] not in names]
+json.dump({"miri_pass_of_the_targeted_property": prev + [
     {"change": r[0], "property": r[1], "exit": int(r[2]), "violation": r[2] == "1", "summary": r[3], "seconds": int(r[4])} for r in rows]},
     open(sys.argv[2], "w"), indent=1)
 PY
